@@ -6,7 +6,7 @@ pub struct DSU {
 }
 
 pub open spec fn inv(p: Seq<usize>, sz: Seq<usize>) -> bool {
-    &&& p.len() == sz.len()
+    &&& p.len() == sz.len() && p.len() <= usize::MAX
     &&& forall|v: int| 0 <= v < p.len() ==> #[trigger] p[v] < p.len()
     &&& forall|v: int| 0 <= v < p.len() ==> 1 <= #[trigger] sz[v] <= p.len()
     &&& forall|v: int| 0 <= v < p.len() && p[v] != v ==> #[trigger] sz[p[v] as int] >= 2 * sz[v]
@@ -73,6 +73,107 @@ proof fn lemma_doubling_to_root(p: Seq<usize>, sz: Seq<usize>, v: int)
     lemma_root_props(p, sz, v);
 }
 
+
+// number of elements below k whose representative is r
+pub open spec fn cnt(p: Seq<usize>, sz: Seq<usize>, r: int, k: int) -> int
+    decreases k
+{
+    if k <= 0 { 0 } else { cnt(p, sz, r, k - 1) + if root(p, sz, k - 1) == r { 1int } else { 0int } }
+}
+// sizes are cardinalities of components
+pub open spec fn sized(p: Seq<usize>, sz: Seq<usize>) -> bool {
+    forall|r: int| 0 <= r < p.len() && p[r] == r ==> #[trigger] sz[r] == cnt(p, sz, r, p.len() as int)
+}
+pub open spec fn full(p: Seq<usize>, sz: Seq<usize>) -> bool { inv(p, sz) && sized(p, sz) }
+
+proof fn lemma_cnt_bounds(p: Seq<usize>, sz: Seq<usize>, a: int, b: int, k: int)
+    requires inv(p, sz), 0 <= k <= p.len(), a != b
+    ensures 0 <= cnt(p, sz, a, k), cnt(p, sz, a, k) + cnt(p, sz, b, k) <= k
+    decreases k
+{
+    if k > 0 { lemma_cnt_bounds(p, sz, a, b, k - 1); }
+}
+// counts only depend on the root function
+proof fn lemma_cnt_same_roots(p1: Seq<usize>, s1: Seq<usize>, p2: Seq<usize>, s2: Seq<usize>, r: int, k: int)
+    requires p1.len() == p2.len(), 0 <= k <= p1.len(),
+        forall|w: int| 0 <= w < p1.len() ==> root(p1, s1, w) == root(p2, s2, w),
+    ensures cnt(p1, s1, r, k) == cnt(p2, s2, r, k)
+    decreases k
+{
+    if k > 0 { lemma_cnt_same_roots(p1, s1, p2, s2, r, k - 1); }
+}
+
+// linking root u below root v (sz[u] <= sz[v])
+pub open spec fn link_p(p: Seq<usize>, u: int, v: int) -> Seq<usize> { p.update(u, v as usize) }
+pub open spec fn link_s(sz: Seq<usize>, u: int, v: int) -> Seq<usize> { sz.update(v, (sz[v] + sz[u]) as usize) }
+
+proof fn lemma_link_inv(p: Seq<usize>, sz: Seq<usize>, u: int, v: int)
+    requires full(p, sz), 0 <= u < p.len(), 0 <= v < p.len(), u != v, p[u] == u, p[v] == v, sz[u] <= sz[v],
+    ensures inv(link_p(p, u, v), link_s(sz, u, v)), sz[u] + sz[v] <= p.len()
+{
+    lemma_cnt_bounds(p, sz, u, v, p.len() as int);
+    assert(sz[u] == cnt(p, sz, u, p.len() as int));
+    assert(sz[v] == cnt(p, sz, v, p.len() as int));
+    assert(sz[u] + sz[v] <= p.len());
+    let p2 = link_p(p, u, v); let s2 = link_s(sz, u, v);
+    assert(s2[v] == sz[v] + sz[u]);
+    assert forall|w: int| 0 <= w < p2.len() && p2[w] != w implies #[trigger] s2[p2[w] as int] >= 2 * s2[w] by {
+        if w == u { assert(s2[u] == sz[u]); } else {
+            assert(p2[w] == p[w]); assert(w != v); assert(s2[w] == sz[w]);
+            assert(sz[p[w] as int] >= 2 * sz[w]);
+            if p[w] == v { } else { assert(s2[p[w] as int] == sz[p[w] as int]); }
+        }
+    }
+    assert forall|w: int| 0 <= w < p2.len() implies 1 <= #[trigger] s2[w] <= p2.len() by {
+        if w == v { } else { assert(s2[w] == sz[w]); }
+    }
+    assert forall|w: int| 0 <= w < p2.len() implies #[trigger] p2[w] < p2.len() by { if w != u { assert(p2[w] == p[w]); } }
+}
+proof fn lemma_link_root(p: Seq<usize>, sz: Seq<usize>, u: int, v: int, w: int)
+    requires full(p, sz), 0 <= u < p.len(), 0 <= v < p.len(), u != v, p[u] == u, p[v] == v, sz[u] <= sz[v], 0 <= w < p.len(),
+    ensures root(link_p(p, u, v), link_s(sz, u, v), w) == (if root(p, sz, w) == u { v } else { root(p, sz, w) })
+    decreases p.len() - sz[w]
+{
+    lemma_link_inv(p, sz, u, v);
+    let p2 = link_p(p, u, v); let s2 = link_s(sz, u, v);
+    if p[w] == w {
+        if w == u {
+            assert(p2[u] == v); assert(p2[v] == v);
+            assert(root(p2, s2, v) == v);
+            assert(root(p2, s2, u) == root(p2, s2, v));
+        } else { assert(p2[w] == w); }
+    } else {
+        assert(w != u);
+        assert(p2[w] == p[w]);
+        lemma_link_root(p, sz, u, v, p[w] as int);
+    }
+}
+proof fn lemma_link_cnt(p: Seq<usize>, sz: Seq<usize>, u: int, v: int, r: int, k: int)
+    requires full(p, sz), 0 <= u < p.len(), 0 <= v < p.len(), u != v, p[u] == u, p[v] == v, sz[u] <= sz[v], 0 <= k <= p.len(),
+    ensures cnt(link_p(p, u, v), link_s(sz, u, v), r, k)
+        == (if r == v { cnt(p, sz, u, k) + cnt(p, sz, v, k) } else if r == u { 0 } else { cnt(p, sz, r, k) })
+    decreases k
+{
+    if k > 0 { lemma_link_cnt(p, sz, u, v, r, k - 1); lemma_link_root(p, sz, u, v, k - 1); }
+}
+proof fn lemma_link_full(p: Seq<usize>, sz: Seq<usize>, u: int, v: int)
+    requires full(p, sz), 0 <= u < p.len(), 0 <= v < p.len(), u != v, p[u] == u, p[v] == v, sz[u] <= sz[v],
+    ensures full(link_p(p, u, v), link_s(sz, u, v))
+{
+    lemma_link_inv(p, sz, u, v);
+    let p2 = link_p(p, u, v); let s2 = link_s(sz, u, v);
+    assert(sz[u] == cnt(p, sz, u, p.len() as int));
+    assert(sz[v] == cnt(p, sz, v, p.len() as int));
+    assert forall|r: int| 0 <= r < p2.len() && p2[r] == r implies #[trigger] s2[r] == cnt(p2, s2, r, p2.len() as int) by {
+        lemma_link_cnt(p, sz, u, v, r, p.len() as int);
+        if r == v { assert(s2[v] == sz[v] + sz[u]); } else {
+            assert(r != u);
+            assert(p[r] == r);
+            assert(s2[r] == sz[r]);
+            assert(sz[r] == cnt(p, sz, r, p.len() as int));
+        }
+    }
+}
 impl DSU {
     pub fn par(&mut self, v: usize) -> (r: usize)
         requires inv(old(self).p@, old(self).sz@), v < old(self).p.len(),
@@ -100,6 +201,61 @@ impl DSU {
             }
         }
         self.p[v]
+    }
+
+    pub fn un(&mut self, mut u: usize, mut v: usize) -> (res: bool)
+        requires full(old(self).p@, old(self).sz@), u < old(self).p.len(), v < old(self).p.len(),
+        ensures full(final(self).p@, final(self).sz@), final(self).p.len() == old(self).p.len(),
+            res == (root(old(self).p@, old(self).sz@, u as int) != root(old(self).p@, old(self).sz@, v as int)),
+            // the partition after the call: classes of u and v merged, everything else untouched
+            forall|a: int, b: int| 0 <= a < old(self).p.len() && 0 <= b < old(self).p.len() ==>
+                ((root(final(self).p@, final(self).sz@, a) == root(final(self).p@, final(self).sz@, b)) <==> {
+                    let ra = root(old(self).p@, old(self).sz@, a); let rb = root(old(self).p@, old(self).sz@, b);
+                    let ru = root(old(self).p@, old(self).sz@, u as int); let rv = root(old(self).p@, old(self).sz@, v as int);
+                    ra == rb || (ra == ru && rb == rv) || (ra == rv && rb == ru)
+                }),
+    {
+        let ghost p0 = self.p@; let ghost s0 = self.sz@;
+        let ghost u0 = u as int; let ghost v0 = v as int;
+        u = self.par(u);
+        proof {
+            assert forall|r: int| 0 <= r < self.p@.len() && self.p@[r] == r implies #[trigger] self.sz@[r] == cnt(self.p@, self.sz@, r, self.p@.len() as int) by {
+                lemma_root_props(self.p@, self.sz@, r); lemma_root_props(p0, s0, r);
+                assert(root(p0, s0, r) == r);
+                assert(p0[r] == r) by { lemma_root_props(p0, s0, r); }
+                lemma_cnt_same_roots(self.p@, self.sz@, p0, s0, r, p0.len() as int);
+            }
+        }
+        let ghost p1 = self.p@;
+        v = self.par(v);
+        proof {
+            assert forall|r: int| 0 <= r < self.p@.len() && self.p@[r] == r implies #[trigger] self.sz@[r] == cnt(self.p@, self.sz@, r, self.p@.len() as int) by {
+                lemma_root_props(self.p@, self.sz@, r); lemma_root_props(p1, s0, r);
+                assert(root(p1, s0, r) == r);
+                lemma_cnt_same_roots(self.p@, self.sz@, p1, s0, r, p0.len() as int);
+            }
+            lemma_root_props(p0, s0, u0); lemma_root_props(p0, s0, v0);
+            lemma_root_props(self.p@, self.sz@, u as int); lemma_root_props(self.p@, self.sz@, v as int);
+        }
+        if u == v {
+            return false;
+        }
+        if self.sz[u] > self.sz[v] {
+            std::mem::swap(&mut u, &mut v);
+        }
+        let ghost p2 = self.p@;
+        proof { lemma_link_full(p2, s0, u as int, v as int); lemma_link_inv(p2, s0, u as int, v as int); }
+        self.sz[v] += self.sz[u];
+        self.p[u] = v;
+        proof {
+            assert(self.p@ == link_p(p2, u as int, v as int));
+            assert(self.sz@ == link_s(s0, u as int, v as int));
+            assert forall|a: int| 0 <= a < p0.len() implies
+                root(self.p@, self.sz@, a) == (if root(p0, s0, a) == u { v as int } else { root(p0, s0, a) }) by {
+                lemma_link_root(p2, s0, u as int, v as int, a);
+            }
+        }
+        true
     }
 }
 } // verus!
